@@ -71,13 +71,51 @@ def _check(prop, tier, seed, replay, work, t0):
         path = vlib.save_replay(prop, "r%d" % v["trace"], {"property": prop, "invariants": v["names"], "scenario": rec})
         violations.append({"replay": path, "what": "%s: S=%s src=%s out=%s cache=%s psync=%s decision=%s delivered=%s (%s)" % (
             ",".join(v["names"]), rec["S"], rec["src"], rec["out"], rec["cache"], rec["psync"], rec["decision"], rec["deliv"], rec["backend"])})
+    # ---- end to end: the whole pipeline (real RedisInput.Run with its run loop and back-off, real cache, real
+    # RedisOutput) between a fake master (drops, fail-over, backlog loss) and the fake target
+    e2e = vlib.build_driver("e2edrv", work)
+    ne = 64 if tier == "quick" else 640
+    ework = os.path.join(work, "e2e")
+    os.makedirs(ework)
+    cmds = [[e2e, "-seed", str(seed), "-n", str(ne), "-work", ework, "-shard", str(i), "-shards", str(shards),
+             "-out", os.path.join(work, "e%d.ndjson" % i), "-stats", os.path.join(work, "es%d.json" % i)] for i in range(shards)]
+    for rc, out in vlib.run_parallel(cmds, timeout=6000):
+        if rc != 0:
+            raise vlib.HarnessError("e2edrv failed (%d):\n%s" % (rc, out[-3000:]))
+    etrace = os.path.join(work, "e2e.ndjson")
+    e2e_scen = 0
+    e2e_faults = {}
+    with open(etrace, "w") as w:
+        for i in range(shards):
+            s_ = json.load(open(os.path.join(work, "es%d.json" % i)))
+            e2e_scen += s_["scenarios"]
+            for k, v in s_["faults"].items():
+                e2e_faults[k] = e2e_faults.get(k, 0) + v
+            shutil.copyfileobj(open(os.path.join(work, "e%d.ndjson" % i)), w)
+    eviol, etr = vlib.tlc_trace([os.path.join(SPEC, "trace", "TraceE2E.tla")], "TraceE2E", etrace, work, timeout=3000)
+    elines = open(etrace).read().splitlines() if eviol else []
+    for v in eviol:
+        rec = json.loads(elines[v["line"] - 1])
+        sig = {"invariant": v["names"][0], "backend": "disk" if rec["disk"] else "memory", "txn": rec["txn"]}
+        f = vlib.known_match(prop, sig)
+        if f:
+            known.append(f)
+            continue
+        if len(violations) >= 10:
+            continue
+        path = vlib.save_replay(prop, "e%d" % v["trace"], {"property": prop, "invariants": v["names"], "scenario": rec})
+        violations.append({"replay": path, "what": "%s (end to end): txn=%s %s faults=%s commands=%d initial=%s total=%s lists=%s psync=%s complete=%s err=%s" % (
+            ",".join(v["names"]), rec["txn"], "disk" if rec["disk"] else "memory", rec["faults"], rec["ncmds"], rec["initial"], rec["total"], rec["lists"],
+            [(p_["id"], p_["off"] - rec["base"], p_["reply"]) for p_ in rec["psync"]], rec["complete"], rec["err"])})
+    nscen += e2e_scen
     cov = {"states": r["distinct"], "transitions": r["generated"], "traces_validated_against_impl": nscen, "samples": samples[:2], "exhaustive": False,
+           "end_to_end_scenarios": e2e_scen, "end_to_end_faults": e2e_faults,
            "delivered_kinds": kinds,
            "explanation": "D: every combination of source (same id / failover with previous id and switch offset / new id; backlog window), stored position and cache shape "
-                          "for offsets 0..%d, shared prefix %d (%d configurations). Real code: %d seeded combinations on disk and memory caches populated by real writers" % (mo, s, r["distinct"] // 2, nscen)}
+                          "for offsets 0..%d, shared prefix %d (%d configurations). Real code: %d seeded combinations on disk and memory caches populated by real writers; %d end-to-end runs of the whole pipeline with up to two faults (connection drop, drop inside a command, fail-over to a new id, backlog loss, target crash)" % (mo, s, r["distinct"] // 2, nscen - e2e_scen, e2e_scen)}
     vlib.write_evidence(prop, tier, seed, "model_checking", cov,
                         ["the fake source implements masterTryPartialResynchronization's rule (replid, replid2 + second_replid_offset, backlog window) and FULLRESYNC with a length-prefixed snapshot",
-                         "syncData's writer/reader wiring is reproduced by the driver (rdb writer, aof writer, reader at outSp); the run loop, output replay and retries are not part of this check",
+                         "syncData's writer/reader wiring is reproduced by the decision driver (rdb writer, aof writer, reader at outSp); the run loop, its back-off, the output replay and reconnections are exercised by the end-to-end driver (RedisInput.Run + cache + RedisOutput between a fake master and the fake target; final lists judged by TraceE2E.tla)",
                          "histories: A, its promoted replica B (shared prefix S), unrelated C"],
                         time.time() - t0, len(violations))
     vlib.conclude(prop, violations, known)
